@@ -36,6 +36,7 @@ type GenOpts struct {
 	BiasMoves bool
 	Counts    bool // readdir with count limits (C13)
 	NoAttrs   bool
+	Twins     bool // batched members all carry ONE size, mode and modification time: names re-used after a move or delete get records whose metadata is identical to the earlier entry's, only content and position differ
 	Exotic    bool // unusual names, path spellings, owners, timestamps, permission values, deeper trees
 }
 
@@ -299,6 +300,9 @@ func (g *Gen) next(t Tree) Op {
 	}
 	if g.o.Batched {
 		ws = append(ws, w{"archive", 8}, w{"update", 4}, w{"opdelete", 3}, w{"opmove", 4})
+		if g.o.Twins {
+			ws = append(ws, w{"archive", 16}, w{"opmove", 14}, w{"opdelete", 5}, w{"update", 4})
+		}
 	}
 	tot := 0
 	for _, x := range ws {
@@ -543,12 +547,18 @@ func (g *Gen) next(t Tree) Op {
 					}
 					m := Op{K: "file", A: p, Perm: perms[r.Intn(len(perms))]}
 					g.data(&m)
+					if g.o.Twins {
+						m.Perm, m.Len = 0o644, 300
+					}
 					ms = append(ms, m)
 					tt[p] = Entry{Kind: "f"}
 				}
 			}
 			if len(ms) == 0 {
 				continue
+			}
+			if g.o.Twins {
+				return Op{K: "archive", Members: ms, DSeed: r.Uint64(), Mt: 1600000000}
 			}
 			return Op{K: "archive", Members: ms, DSeed: r.Uint64()}
 		case "update":
@@ -563,6 +573,9 @@ func (g *Gen) next(t Tree) Op {
 			g.data(&op)
 			if op.Len == 0 {
 				op.Len = 1 + r.Intn(600)
+			}
+			if g.o.Twins {
+				op.Perm, op.Len, op.Mt = 0o644, 300, 1600000000
 			}
 			return op
 		case "opdelete":
